@@ -68,6 +68,13 @@ def check(v, tier, seed):
         v.violation({"what": "a thread's results differ from the results of the same calls run alone (NoCrossTalk)", "record": bad}, tags={"kind": "crosstalk"})
     elif tr["distinct"] < len(allrecs):
         raise vlib.Infra("Trace_Concurrency consumed %d of %d" % (tr["distinct"], len(allrecs)))
+    # stage order of single calls (module Pipeline, Level B): every schedule point a call passes, validated as drift only
+    pf = os.path.join(wd, "pipeline.ndjson")
+    rc, out = vlib.run("%s events %d %d > /dev/null" % (exe, seed + 77, 400 if quick else 6000), timeout=3000, env={"VERIF_RECORDS": pf}, mem_gb=24)
+    if rc == 0:
+        pr = vlib.trace_validate("Trace_Pipeline", pf, nshards=1)
+        vlib.tlc_ok(pr, "Trace_Pipeline")
+        v.cov["parts"]["Trace_Pipeline"] = {"calls": pr["distinct"], "drift": len(re.findall("DRIFT", pr["out"])), "wall_s": round(pr["wall"], 1)}
     v.cov["campaigns"] = dict(parts)
     v.cov["schedules_enforced"] = len(rows)
     v.cov["evaluations"] = len(allrecs)
